@@ -1378,7 +1378,7 @@ mod v_wire_views {
         kani::cover!(ok && UdpPacket::new_checked(b).is_ok(), "pp udp: printed a valid header");
     }
 
-    // @harness props=C07 cfg=KW tier=q to=900 mem=6 unwind=24 covers=1 funcs=PrettyPrinter::fmt;ArpPacket::pretty_print;ArpPacket::fmt;ArpRepr::fmt bounds=any_bytes_len_0..=28
+    // @harness props=C07 cfg=KW tier=t to=3600 mem=16 unwind=24 covers=1 funcs=PrettyPrinter::fmt;ArpPacket::pretty_print;ArpPacket::fmt;ArpRepr::fmt bounds=any_bytes_len_0..=28
     #[kani::proof]
     pub(crate) fn pp_arp() {
         const N: usize = 28;
@@ -1400,7 +1400,7 @@ mod v_wire_views {
         kani::cover!(ok && len >= 8 && bytes[0] == 0x11, "pp igmp: printed a membership query");
     }
 
-    // @harness props=C07 cfg=KW tier=q to=1200 mem=8 unwind=16 opts=term covers=2 funcs=PrettyPrinter::fmt;TcpPacket::pretty_print;TcpPacket::fmt;TcpOption::parse bounds=any_bytes_len_0..=32_(<=12_option_bytes)
+    // @harness props=C07 cfg=KW tier=t to=3600 mem=16 unwind=16 opts=term covers=2 funcs=PrettyPrinter::fmt;TcpPacket::pretty_print;TcpPacket::fmt;TcpOption::parse bounds=any_bytes_len_0..=32_(<=12_option_bytes)
     #[kani::proof]
     pub(crate) fn pp_tcp() {
         const N: usize = 32;
@@ -1412,7 +1412,7 @@ mod v_wire_views {
         kani::cover!(ok && len == N && bytes[12] == 0x80 && bytes[20] == 5 && bytes[21] == 10, "pp tcp: printed a header with a SACK option");
     }
 
-    // @harness props=C07 cfg=KW tier=q to=1200 mem=8 unwind=20 covers=2 funcs=PrettyPrinter::fmt;NdiscOption::pretty_print;NdiscOptionRepr::fmt bounds=any_bytes_len_0..=40
+    // @harness props=C07 cfg=KW tier=t to=3600 mem=16 unwind=20 covers=2 funcs=PrettyPrinter::fmt;NdiscOption::pretty_print;NdiscOptionRepr::fmt bounds=any_bytes_len_0..=40
     #[kani::proof]
     pub(crate) fn pp_ndisc_option() {
         const N: usize = 40;
@@ -1490,7 +1490,7 @@ mod v_wire_views {
         }
     }
 
-    // @harness props=C07 cfg=KW tier=q to=900 mem=6 unwind=12 covers=1 funcs=Ipv6Packet::fmt;Ipv6Repr::fmt bounds=any_bytes_len_0..=44
+    // @harness props=C07 cfg=KW tier=t to=1800 mem=6 unwind=12 covers=1 funcs=Ipv6Packet::fmt;Ipv6Repr::fmt bounds=any_bytes_len_0..=44
     #[kani::proof]
     pub(crate) fn disp_ipv6() {
         const N: usize = 44;
@@ -1503,7 +1503,7 @@ mod v_wire_views {
         }
     }
 
-    // @harness props=C07 cfg=KW tier=q to=900 mem=6 unwind=20 covers=3 funcs=Ipv6FragmentHeader::fmt;Ipv6RoutingHeader::fmt;Ipv6Option::fmt;Ipv6OptionRepr::fmt;Ipv6RoutingRepr::fmt bounds=any_bytes_len_0..=24
+    // @harness props=C07 cfg=KW tier=t to=1800 mem=6 unwind=20 covers=3 funcs=Ipv6FragmentHeader::fmt;Ipv6RoutingHeader::fmt;Ipv6Option::fmt;Ipv6OptionRepr::fmt;Ipv6RoutingRepr::fmt bounds=any_bytes_len_0..=24
     #[kani::proof]
     pub(crate) fn disp_ipv6_ext() {
         const N: usize = 24;
@@ -1524,7 +1524,7 @@ mod v_wire_views {
         }
     }
 
-    // @harness props=C07 cfg=KW tier=q to=900 mem=6 unwind=20 covers=1 funcs=NdiscOption::fmt;NdiscOptionRepr::fmt bounds=any_bytes_len_0..=40
+    // @harness props=C07 cfg=KW tier=t to=3600 mem=16 unwind=20 covers=1 funcs=NdiscOption::fmt;NdiscOptionRepr::fmt bounds=any_bytes_len_0..=40
     #[kani::proof]
     pub(crate) fn disp_ndisc_option() {
         const N: usize = 40;
